@@ -142,6 +142,18 @@ PROPS = {
                      "is_valid_token / is_valid_user_token are external in unit sessions (their contracts are proved in unit store)",
                      "sessions are modelled abstractly in the accounting lemmas: a map from session ids to the selected database"],
     ),
+    "C05": dict(
+        units=["sync"],
+        undecided=["the protocol: join / replicate-since handshake, the supervisor loop, sockets, writes accepted during the synchronisation (async code, several processes)",
+                   "the incremental path get_pendding_opps_since_from_sync (oplog records -> lines: HashMap clones, &str / &String juggling and unwraps on id lookups) is a trusted "
+                   "external here; it builds its lines with the same three format strings",
+                   "the receiving side: that the parser and the ReplicateSet / CreateDb handlers turn a well-formed line back into the same key, value and version "
+                   "(the parsers are proved total in unit parser, not inverse to the emitters: strings are uninterpreted for both verifiers) - the bounded sweep feeds the real lines through the real parser",
+                   "startup: invalid oplog => since 0 (bin/main.rs)"],
+        assumptions=["format! is an uninterpreted function of its literal and of the Display texts of its arguments (nfmt! shims); Display of a String / a Value is its text / its value",
+                     "`map.values().collect()`, iteration over `&HashMap` and HashMap::clone are replaced by trusted list shims (every entry once)",
+                     "sequential semantics (the real function holds the read lock of the database map for the whole emission)"],
+    ),
     "C06": dict(
         units=["snapshot", "store"],
         kani=[K_LIVE_VERSION],
@@ -196,8 +208,8 @@ PROPS = {
         assumptions=["Change::new stamps the resolving change with the wall clock (any u64)"],
     ),
     "C10": dict(
-        units=["store", "consensus", "security", "ids", "oplog", "pending", "parser", "sessions", "http", "election", "snapshot"],
-        reachable={"snapshot": ["NodeDrive::storage_data_disk", "write_value", "write_key", "update_key", "write_new_key_value", "get_key_disk_size", "create_db_from_file_name", "ValueStatus::to_le_bytes"], "http": ["process_commands"], "election": ["election_eval", "start_election", "start_new_election", "election_win", "Databases::get_role", "Databases::is_eligible", "Databases::is_primary", "From<usize>@ClusterRole::from"], "store": STORE_FNS, "security": SECURITY_FNS, "pending": ["ReplicationMessage::new", "ReplicationMessage::ack", "ReplicationMessage::replicated", "ReplicationMessage::is_full_acknowledged",
+        units=["store", "consensus", "security", "ids", "oplog", "pending", "parser", "sessions", "http", "election", "snapshot", "sync"],
+        reachable={"sync": ["make_create_db_command", "get_full_sync_opps", "get_pendding_opps_since"], "snapshot": ["NodeDrive::storage_data_disk", "write_value", "write_key", "update_key", "write_new_key_value", "get_key_disk_size", "create_db_from_file_name", "ValueStatus::to_le_bytes"], "http": ["process_commands"], "election": ["election_eval", "start_election", "start_new_election", "election_win", "Databases::get_role", "Databases::is_eligible", "Databases::is_primary", "From<usize>@ClusterRole::from"], "store": STORE_FNS, "security": SECURITY_FNS, "pending": ["ReplicationMessage::new", "ReplicationMessage::ack", "ReplicationMessage::replicated", "ReplicationMessage::is_full_acknowledged",
                    "ReplicationMessage::count_replication", "ReplicationMessage::count_acknowledged", "ReplicationMessage::get_copy", "Databases::register_pending_opp",
                    "Databases::acknowledge_pending_opp", "Databases::get_pending_opp_copy"],
                    "parser": PARSER_FNS, "sessions": ["Database::inc_connections", "Database::dec_connections", "Database::connections_count", "release_previous_db",
